@@ -170,7 +170,7 @@ def main(argv=None):
     nviol = 0
     for sig, f in sorted(new.items()):
         nviol += total.counters.get('failsig:' + sig, 1)
-        rdir = os.path.join(VERIF, 'replays', pid)
+        rdir = os.path.join(os.environ.get('PCFG_VERIF_REPLAYS') or os.path.join(VERIF, 'replays'), pid)
         os.makedirs(rdir, exist_ok=True)
         case = f['case']
         if hasattr(mod, 'minimise'):
